@@ -240,6 +240,9 @@ def odd_corners():
     yield 'escape_out_of_range', mk(flat + [('L', 'DATA \\U00110000 0')])
     yield 'escape_surrogate', mk(flat + [('L', 'DATA \\uD800 0')])
     yield 'escape_surrogate_ignore', mk(flat + [('L', 'IGNORE \\uDC80')])
+    for cp in ('DC00', 'DC41', 'DC7F', 'DC80', 'DCFF', 'DBFF', 'DD00', 'DFFF'):
+        yield f'escape_surrogate_{cp}_data', mk(flat + [('L', f'DATA x\\u{cp} 0')])
+        yield f'escape_surrogate_{cp}_manifest', mk(flat + [('L', f'MANIFEST d/m\\u{cp} 0')])
     yield 'escape_nul', mk(flat + [('L', 'DATA a\\x00b 0')])
     yield 'escape_nul_ignore', mk(flat + [('L', 'IGNORE \\x00')])
     yield 'entry_names_directory', mk(flat + [('L', 'DATA g 0')])
@@ -292,6 +295,12 @@ def odd_corners():
     repo = {'profiles/categories': b'cat\n', 'cat/pkg/pkg-1.ebuild': b'e', 'cat/pkg/metadata.xml': b'<m/>',
             'cat/pkg/files/patch': b'p', 'cat/pkg/files/Manifest': b'DATA patch 1\n', 'eclass/x.eclass': b'x'}
     yield 'oldebuild_files_with_manifest', Tree(repo)
+    repo_f = {k: v for k, v in repo.items() if not k.startswith('cat/pkg/files/')}
+    repo_f['cat/pkg/files'] = b'a regular file named files'
+    yield 'oldebuild_regular_file_named_files', Tree(repo_f)
+    repo_g = dict(repo_f)
+    repo_g['cat/pkg/Manifest'] = b''
+    yield 'oldebuild_regular_file_named_files_with_manifest', Tree(repo_g)
     repo2 = dict(repo)
     del repo2['cat/pkg/files/Manifest']
     repo2['cat/pkg/files/sub/Manifest.gz'] = __import__('gzip').compress(b'', mtime=0)
